@@ -213,7 +213,7 @@ def parse_set_cookie(text):
     """RFC 6265 5.2: what a user agent makes of one Set-Cookie line."""
     parts = text.split(';')
     name, _, value = parts[0].partition('=')
-    rec = {'text': text, 'name': name.strip(), 'value': value.strip(), 'hasexp': False, 'exp': -1, 'hasmaxage': False,
+    rec = {'text': text, 'name': name.strip(), 'value': value.strip(), 'vcps': [ord(ch) for ch in value.strip()], 'hasexp': False, 'exp': -1, 'hasmaxage': False,
            'maxage': 0, 'domain': '', 'path': '', 'secure': False, 'httponly': False, 'samesite': '',
            'partitioned': False, 'other': [], 'dup': False}
     seen = set()
@@ -342,7 +342,7 @@ _COMMON = ('op', 'err', 'exc', 'res', 'after')
 EVENT_FIELDS = {
     'get': _COMMON + ('n',), 'set': _COMMON + ('n', 'v'), 'delete': _COMMON + ('n',), 'append': _COMMON + ('n', 'v'),
     'set_headers': _COMMON + ('items', 'asdict'), 'typed': _COMMON + ('p', 'a', 'law'), 'typed_get': _COMMON + ('p',),
-    'link': _COMMON + ('link', 'law'), 'set_cookie': _COMMON + ('ck', 'ca'),
+    'link': _COMMON + ('link', 'law'), 'set_cookie': _COMMON + ('ck', 'ca', 'vcps'),
     'unset_cookie': _COMMON + ('ck', 'ua', 't0', 't1'),
 }
 
@@ -470,7 +470,11 @@ def _do(resp, c, ev):
                 law['why'] = str(ex)
             ev['law'] = law
         elif op == 'set_cookie':
-            resp.set_cookie(c['ck'], c['ca']['value'], **cookie_kwargs(c['ca']))
+            ev['vcps'] = cps(c['ca']['value'])
+            try:
+                resp.set_cookie(c['ck'], c['ca']['value'], **cookie_kwargs(c['ca']))
+            except ValueError:          # documented: "`value` is not a valid cookie value" (not ASCII)
+                ev['err'] = True
         elif op == 'unset_cookie':
             ev['t0'] = int(time.time())
             kw = {k: c['ua'][k] for k in ('domain', 'path') if c['ua'][k]}
@@ -537,7 +541,7 @@ def _execute(iface, sd, calls, media):
 
     def script(req, resp):
         for c in calls:
-            ev = dict(c, err=False, exc='', res=[], after=[], law=NOLAW, t0=0, t1=0)
+            ev = dict(c, err=False, exc='', res=[], after=[], law=NOLAW, t0=0, t1=0, vcps=[])
             _do(resp, c, ev)
             # keep what the judge reads for this kind of call (traces are big otherwise)
             evs.append({k: ev[k] for k in EVENT_FIELDS[c['op']]})
@@ -869,9 +873,17 @@ def rlink(rng):
     return l
 
 
+CK_ALPHABET = '\\\\\\01237' + '89"",;  aZ\n\t\x01\x7f=:/%'
+
+
 def rcookie(rng):
     ca = dict(NOCA)
-    ca['value'] = rng.choice(R_COOKIE_VALUES)
+    if rng.random() < 0.5:
+        ca['value'] = rng.choice(R_COOKIE_VALUES)
+    else:       # strings over backslash / octal digits / quote / separators / controls (the coded form is what matters)
+        ca['value'] = ''.join(rng.choice(CK_ALPHABET) for _ in range(rng.randint(1, 12)))
+        if rng.random() < 0.05:
+            ca['value'] += rng.choice('\xe9\u20ac')          # not ASCII: set_cookie must refuse it
     if rng.random() < 0.4:
         aware = rng.random() < 0.5
         ca.update(exp=rng.choice(R_EPOCHS), expkind='aware' if aware else 'naive',
@@ -1013,6 +1025,10 @@ def run(ctx):
         if rw.violated not in inv:
             raise MachineryError('wrong design %s should violate one of %s, TLC says %r' % (name, sorted(inv), rw.violated))
         wrong[name] = rw.violated
+    rw = ctx.tlc('MC_RespHeaders', 'MC_RespHeadersCk_TwoPass.cfg', must_hold=False, count=False, workers=4, timeout=300)
+    if rw.violated != 'CookieRoundTrip':
+        raise MachineryError('the two-pass cookie unquoter should violate CookieRoundTrip, TLC says %r' % rw.violated)
+    wrong['TwoPassUnquote'] = rw.violated
     ctx.extra['wrong_designs_rejected'] = wrong
     ctx.progress('leg M done: %d states; wrong designs rejected: %s' % (r.distinct, wrong))
 
@@ -1086,6 +1102,48 @@ def run(ctx):
     ctx.traces_validated += nenc
     ctx.extra['encoding_cases'] = nenc
     ctx.progress('leg A2 done: %d encoding cases' % nenc)
+
+    # ---- leg A3: cookie-value coding: law model-checked + every value of the table round-tripped -----------------
+    # TLC checks CookieDecode(CookieEncode(v)) = v for every value of the instance and exports (v, coded, refused);
+    # 25 values per response: set_cookie -> the server's Set-Cookie lines -> Cookie header -> req.cookies
+    tabs = [ctx.tlc('MC_RespHeaders', ctx.pick('MC_RespHeadersCkQ.cfg', 'MC_RespHeadersCk.cfg'), workers=4, timeout=900)]
+    if not ctx.quick:
+        tabs.append(ctx.tlc('MC_RespHeaders', 'MC_RespHeadersCk5.cfg', workers=4, timeout=900))
+    cvals = {}
+    for rt in tabs:
+        for c in rt.json:
+            cvals.setdefault(tuple(c['v']), c)
+    cvals = list(cvals.values())
+    if len(cvals) < ctx.pick(11000, 50000):
+        raise MachineryError('cookie value table has only %d values' % len(cvals))
+    per = 25
+    nck = 0
+    for off in range(0, len(cvals), per):
+        part = cvals[off:off + per]
+        calls = [call('set_cookie', ck='c%02d' % i, ca=dict(NOCA, value=''.join(map(chr, c['v'])))) for i, c in enumerate(part)]
+        iface = 'wsgi' if (off // per) % 2 == 0 else 'asgi'
+        trace = execute(iface, True, calls)
+        case = {'origin': 'spec-cookie-value-table', 'iface': iface, 'sd': True, 'calls': calls}
+        ctx.case(case, nontrivial=False, key=digest(case))
+        k = digest(trace)
+        items.setdefault(k, (trace, case))
+        nck += len(part)
+        e = trace['ev'][-1]
+        lines = {ln['name']: ln for ln in e['lines']}
+        echo = dict((a, b) for a, b in e['echo'])
+        for i, (c, ev) in enumerate(zip(part, trace['ev'])):
+            name, v = 'c%02d' % i, ''.join(map(chr, c['v']))
+            if ev['exc'] or ev['err'] != c['refused']:
+                pending.append((k, ('P:cookie-refusal', 'set_cookie(%r): raised=%r exc=%r, spec refused=%r' % (v, ev['err'], ev['exc'], c['refused'])), case))
+            elif not c['refused']:
+                if name in lines and lines[name]['vcps'] != c['coded']:
+                    ctx.detail('D:cookie-coding', case, 'value %r is sent as %r, spec %r' % (v, lines[name]['value'], ''.join(map(chr, c['coded']))))
+                if echo.get(name) != [v]:
+                    pending.append((k, ('P:cookie-echo', 'cookie value %r sent as %r is read back as %r' % (
+                        v, lines.get(name, {}).get('value'), echo.get(name))), case))
+    ctx.traces_validated += (len(cvals) + per - 1) // per
+    ctx.extra['cookie_values_round_tripped'] = nck
+    ctx.progress('leg A3 done: %d cookie values (law model-checked, each round-tripped)' % nck)
 
     # ---- leg B: seeded random histories beyond the bound --------------------------------------------
     nrand = ctx.pick(2500, 40000)
